@@ -290,8 +290,11 @@ func parseContractFile(path, pkg string) (*ContractFile, error) {
 			// assume after make <chan var> : expr   -- ghost attributes of a freshly made channel
 			when, r2 := splitWord(rest)
 			idx := strings.Index(r2, ":")
-			if idx < 0 || when != "after" || !strings.HasPrefix(strings.TrimSpace(r2), "make ") {
-				return nil, fail(fmt.Errorf("assume after make <channel> : expr"))
+			// also: assume after call (*sync.Mutex).Lock#k : inv  -- a monitor invariant, assumed at acquisition; the
+			// contract must re-establish it (ensures) in every function that takes the lock
+			r2t := strings.TrimSpace(r2)
+			if idx < 0 || when != "after" || !(strings.HasPrefix(r2t, "make ") || strings.HasPrefix(r2t, "call (*sync.Mutex).Lock") || strings.HasPrefix(r2t, "call (*sync.RWMutex).")) {
+				return nil, fail(fmt.Errorf("assume after make <channel> : expr   |   assume after call (*sync.Mutex).Lock#k : expr"))
 			}
 			e, err := parseExprSrc(strings.TrimSpace(r2[idx+1:]))
 			if err != nil {
